@@ -48,6 +48,12 @@ def case(draw, tier):
     c = {"op": op, "a": a, "b": b, "strict": draw(st.booleans())}
     if op.startswith("record"):
         perm = draw(st.permutations(list(range(nf))))
+        if nf >= 2 and draw(st.integers(0, 3)) == 0:
+            # a repeated field name in both tables (as a rename / join upstream leaves it): fields are aligned by name,
+            # occurrence by occurrence
+            i, j = draw(st.permutations(list(range(nf))))[:2]
+            a[0][i] = a[0][j]
+            b[0][i] = b[0][j]
         c["b"] = [[r[i] for i in perm] for r in b]
     elif draw(st.booleans()):
         c["b"] = [["x", "y", "z", "u", "w"][:nf]] + [list(r) for r in b[1:]]
